@@ -257,15 +257,20 @@ Proof.
     unfold expand_freevar in H. destruct (class_of g x prev) as [[[[same fb] ip] pa]|]; try discriminate.
     destruct (negb same).
     + inversion H; subst. eapply in_cands_shape; eauto.
-    + destruct (k_ctrace k) as [|cid crest] eqn:Hct.
-      * rewrite Hg in H. destruct (g_refclosures sg) as [|mc0 rest]; try discriminate.
-        destruct (bvs_at g k (n_idx x) (mc0 :: rest)) as [r|] eqn:Hr; try discriminate.
-        inversion H; subst. destruct (bvs_at_shape _ _ _ _ Hr c Hc) as [S1 S2]. split; auto.
+    + destruct (ctrace_top g cfg k x) as [[cid crest]|] eqn:Hct.
       * destruct (get_node g cid) as [cl|]; try discriminate.
         destruct (n_list cl) as [|b0 bs]; try discriminate.
         destruct (nth_error (b0 :: bs) (n_idx x)) as [bv|]; try discriminate.
         inversion H; subst. destruct Hc as [Hc|[]]. subst c. split; simpl; auto with shapes.
-        rewrite Hct. right. left. reflexivity.
+        unfold ctrace_top in Hct. destruct (k_ctrace k) as [|c0 cr]; try discriminate.
+        assert (E : crest = cr).
+        { destruct (fix_ctrace cfg); [|inversion Hct; reflexivity].
+          destruct (get_node g c0) as [cl0|]; [|inversion Hct; reflexivity].
+          destruct (opos_eqb (n_sum cl0) (Some (n_graph x))); [inversion Hct; reflexivity|discriminate]. }
+        subst cr. right. left. reflexivity.
+      * rewrite Hg in H. destruct (g_refclosures sg) as [|mc0 rest]; try discriminate.
+        destruct (bvs_at g k (n_idx x) (mc0 :: rest)) as [r|] eqn:Hr; try discriminate.
+        inversion H; subst. destruct (bvs_at_shape _ _ _ _ Hr c Hc) as [S1 S2]. split; auto.
   - (* argument *)
     unfold expand_arg in H. destruct (get_node g (n_parent x)) as [csn|]; try discriminate.
     match type of H with
